@@ -59,7 +59,7 @@ def h_detect(ctx):
             want = "unknown"
         else:
             line = ctx.pick("first_line", SHEBANGS)
-            rest = ctx.pick("rest_of_file", ("print(3975)\n", "# wrapper around the python tooling\npython3 -m app\n", ""))
+            rest = ctx.pick("rest_of_file", ("print(3975)\n", "# wrapper around the python tooling\npython3 -m app\n", "python3 -m app\n", ""))
             f = d / "script"
             f.write_text((line + "\n" + rest) if line else rest)
             want = "python" if (_shebang_interpreter(line) or "").startswith("python") else "unknown"
